@@ -80,6 +80,34 @@ Definition judge2 (a : list (@event val)) (sa : status) (b : list (@event val)) 
                 else mk 3 (Nat.min na nb)
       end
   end.
+(* The machine with the open known finding C07 (fall-through into the first function after a
+   terminating main) factored out: entering a listed region entry by sequential flow from a
+   line that is not a jump counts as the end of the program.  Used when two emitted programs are
+   compared with each other, so that this one defect does not hide others. *)
+Definition falls_seq (p : @program val) (i : nat) : bool :=
+  match nth_error p i with
+  | Some (LInstr IJ _) | Some (LInstr IJr _) | Some (LInstr IHcf _) => false
+  | Some _ => true
+  | None => false
+  end.
+Fixpoint run_guard (O : @oracle val) (p : @program val) (entries : list nat) (fuel : nat) (s : @state val) : @state val :=
+  match fuel with
+  | O => s
+  | S k =>
+      match st s with
+      | Running =>
+          let s' := step A O p s in
+          if Nat.eqb (pc s') (S (pc s)) && existsb (Nat.eqb (pc s')) entries && falls_seq p (pc s)
+          then halt s' else run_guard O p entries k s'
+      | _ => s
+      end
+  end.
+Definition compare2g (f1 f2 : nat) (T1 : @program val) (E1 : list nat) (T2 : @program val) (E2 : list nat)
+  (O : @oracle val) : verdict :=
+  let a := run_guard O T1 E1 f1 (init_state A) in
+  let b := run_guard O T2 E2 f2 (init_state A) in
+  judge2 (trace a) (st a) (trace b) (st b).
+
 Definition compare2 (f1 f2 : nat) (T1 T2 : @program val) (O : @oracle val) : verdict :=
   let a := run A O T1 f1 (init_state A) in
   let b := run A O T2 f2 (init_state A) in
@@ -106,6 +134,9 @@ Definition cmp_float (fs ft : nat) (P : @prog float) (T : @program float) (seeds
   map (fun sd => compare FloatAlg fs ft P T (pool_oracle sd default_pool)) seeds.
 Definition cmp2_float (f : nat) (T1 T2 : @program float) (seeds : list Z) : list verdict :=
   map (fun sd => compare2 FloatAlg f f T1 T2 (pool_oracle sd default_pool)) seeds.
+
+Definition cmp2g_float (f : nat) (T1 : @program float) E1 (T2 : @program float) E2 (seeds : list Z) : list verdict :=
+  map (fun sd => compare2g FloatAlg f f T1 E1 T2 E2 (pool_oracle sd default_pool)) seeds.
 
 Definition show_event (e : @event float) : nat * list float :=
   (match ev_kind e with EKs => 1 | EKss => 2 | EKsb => 3 | EKsbn => 4 | EKsbs => 5 | EKput => 6 | EKputd => 7
